@@ -1,12 +1,24 @@
 INIT GenInit
 NEXT GenNext
 CONSTANTS
+  Tier = "quick"
   WithReserved = TRUE
+  Dev = "none"
   Headers <- GenHeaders
   SpsCounts = {0, 1, 2, 31}
   PpsCounts = {0, 1, 2, 255}
   NalCounts = {0, 1, 2, 3, 5}
   SizePatterns <- QuickPatterns
+  PosSizes = {1, 2, 4, 255, 256, 65535}
+  PosCounts = {2, 3}
+  RecPosSizes = {1, 2, 256, 65535}
+  RecPosCounts = {0, 1, 2}
+  PosHeaders <- GenPosHeaders
+  MimicSizes = {1, 4, 5, 9}
+  Mimics <- GenMimics
+  MimicCounts = {1, 2}
+  HeaderMatrix <- GenMatrix
+  MatrixLsm1 = {3}
   MaxBytes = 300000
 INVARIANT Emit
 CHECK_DEADLOCK FALSE
